@@ -1,32 +1,41 @@
 import SieveModel.Lemmas.Threading
 import SieveModel.Lemmas.Invariant
 /-!
-# Threading a predicate that relates neighbouring stack frames through every parser step
+# `StackThread` with the tokens in view
 
-`Threading.Closed` carries one predicate per frame.  The facts behind "a command in the wrong role or
-position is rejected" are relations between a frame and the frame (or the result list) *below* it: the
-machine checks them when the upper frame is pushed (`startCommand`, `pushCommand`, `pushTest`) and uses
-them when it is popped (`plug`, `record`).  They stay valid in between because only the top frame of the
-stack is ever modified, and a modification keeps the frame's definition and attachment.
-
-`Closed T FP R BP ResP` lists what has to be shown about the ways the machine builds frames; `SP` is the
-resulting invariant of the parser state; `accepted_result`: the result of an accepted parse is in `ResP`.
+The same invariant scheme as `Lemmas/StackThread.lean` (a predicate per frame, a relation to the frame below, a
+predicate on the result list), but the closure conditions also see **which token** made the machine act: a frame is
+pushed for an identifier token that names its definition, a scalar argument is offered as the text of a string /
+multi-line / number / tag token with the matching argument type.  `TokP` is any predicate the delivered tokens
+satisfy (in the end: "is a token of the lexed script").
 -/
-namespace StackThread
+namespace TokThread
 open Machine Args ArgsSafe
 
-structure Closed (T : Table) (FP : Frame → Prop) (R : CmdDef → Attach → Frame → Prop)
+/-- what the parser offers to `check_next_arg` for a scalar or list token: the token's own text under the argument type of
+    its kind; a bracketed list as a list -/
+def Offered (TokP : Tok → Prop) (t : ArgType) (v : AVal) : Prop :=
+  (∃ tok, TokP tok ∧ v = .str tok.text ∧
+    (((tok.kind = .string ∨ tok.kind = .multiline) ∧ t = .string) ∨ (tok.kind = .number ∧ t = .number) ∨
+      (tok.kind = .tag ∧ t = .tag))) ∨
+  (t = .stringlist ∧ ∃ l, v = .strs l)
+
+/-- the identifier token a frame was pushed for -/
+def Named (TokP : Tok → Prop) (T : Table) (d : CmdDef) : Prop :=
+  ∃ tok, TokP tok ∧ tok.kind = .identifier ∧ T.lookup tok.text = some d
+
+structure Closed (TokP : Tok → Prop) (T : Table) (FP : Frame → Prop) (R : CmdDef → Attach → Frame → Prop)
     (BP : CmdDef → Attach → List Node → Prop) (ResP : List Node → Prop) : Prop where
   nil : ResP []
-  pushTop : ∀ d ∈ T, ∀ res, ResP res → d.kind ≠ .test → followOk d (lastName res) = true →
+  pushTop : ∀ d ∈ T, Named TokP T d → ∀ res, ResP res → d.kind ≠ .test → followOk d (lastName res) = true →
     FP { d := d, attach := .top } ∧ BP d .top res
-  pushChild : ∀ d ∈ T, ∀ f : Frame, FP f → d.kind ≠ .test → f.d.acceptChildren = true →
+  pushChild : ∀ d ∈ T, Named TokP T d → ∀ f : Frame, FP f → d.kind ≠ .test → f.d.acceptChildren = true →
     followOk d (lastName f.children) = true → FP { d := d, attach := .child } ∧ R d .child f
-  pushTest : ∀ d ∈ T, ∀ (f : Frame) (ld : List Bytes) (st' : CState) (pl : Placement), FP f → d.kind = .test →
+  pushTest : ∀ d ∈ T, Named TokP T d → ∀ (f : Frame) (ld : List Bytes) (st' : CState) (pl : Placement), FP f → d.kind = .test →
     checkNextArg f.d ld f.st .test (.test (.mk d.name [] [] [] [])) = .ok (some (st', pl)) →
     FP { f with st := st' } ∧ FP { d := d, attach := .place pl } ∧ R d (.place pl) { f with st := st' }
   value : ∀ (f : Frame) (ld : List Bytes) (t : ArgType) (v : AVal) (st' : CState) (pl : Placement),
-    FP f → Consistent t v → (∀ n, v ≠ .test n) →
+    FP f → Offered TokP t v →
     checkNextArg f.d ld f.st t v = .ok (some (st', pl)) → FP { f with st := st' }
   dry : ∀ (f : Frame) (ld : List Bytes) (n : Node) (st' : CState) (pl : Placement), FP f →
     checkNextArg f.d ld f.st .test (.test n) (add := false) = .ok (some (st', pl)) → FP { f with st := st' }
@@ -35,7 +44,7 @@ structure Closed (T : Table) (FP : Frame → Prop) (R : CmdDef → Attach → Fr
   record : ∀ (f : Frame) (res : List Node) (c : List Bytes), FP f → BP f.d f.attach res → ResP res →
     ResP (res ++ [Frame.toNode f c])
 
-variable {T : Table} {FP : Frame → Prop} {R : CmdDef → Attach → Frame → Prop}
+variable {TokP : Tok → Prop} {T : Table} {FP : Frame → Prop} {R : CmdDef → Attach → Frame → Prop}
   {BP : CmdDef → Attach → List Node → Prop} {ResP : List Node → Prop}
 
 /-- the stack invariant: every frame in `FP`, related to the frame below it; the bottom frame related to
@@ -120,18 +129,30 @@ theorem popBracket_P (s s1 : PState) (k : TokKind) (h : SP FP R BP ResP s) (hp :
     · simp at hp; rw [← hp]; exact h.fields rfl rfl
     · simp at hp
 
-variable (C : Closed T FP R BP ResP)
+theorem getCommand_lookup (T : Table) (ld : List Bytes) (ident : Bytes) (ce : Bool) (d : CmdDef)
+    (h : getCommand T ld ident ce = .ok d) : T.lookup ident = some d := by
+  unfold getCommand at h
+  cases hl : T.lookup ident with
+  | none => rw [hl] at h; simp at h
+  | some d' =>
+    rw [hl] at h
+    simp only at h
+    split at h
+    · simp at h
+    · simp at h; rw [h]
+
+variable (C : Closed TokP T FP R BP ResP)
 include C
 
-theorem curCheck_P (s : PState) (h : SP FP R BP ResP s) (t : ArgType) (v : AVal) (hc : Consistent t v)
-    (hn : ∀ n, v ≠ .test n) (b : Bool) (s' : PState) (pl : Placement)
+theorem curCheck_P (s : PState) (h : SP FP R BP ResP s) (t : ArgType) (v : AVal) (hc : Offered TokP t v)
+    (b : Bool) (s' : PState) (pl : Placement)
     (hcc : curCheck s t v = .ok (b, s', pl)) : SP FP R BP ResP s' := by
   cases b with
   | false => rw [curCheck_false s t v s' pl hcc]; exact h
   | true =>
     obtain ⟨f, rest, st', hst, hcna, rfl⟩ := curCheck_true s t v s' pl hcc
     have hf : FP f := by have := h.1; rw [hst] at this; exact this.head
-    exact withTop_P s f _ rest hst h (C.value f s.loaded t v st' pl hf hc hn hcna) rfl rfl
+    exact withTop_P s f _ rest hst h (C.value f s.loaded t v st' pl hf hc hcna) rfl rfl
 
 theorem upLoop_P (res : List Node) (rest : List Frame) : ∀ (f : Frame), StackP FP R BP (f :: rest) res →
     StackP FP R BP (upLoop f rest).1 res := by
@@ -235,13 +256,13 @@ theorem keepsP_complThen (s : PState) (h : SP FP R BP ResP s) (ts rew : Bool) :
   · rename_i b s' hc
     exact completion_P C s h ts b s' hc
 
-theorem keepsP_offer (s : PState) (h : SP FP R BP ResP s) (t : ArgType) (v : AVal) (hc : Consistent t v)
-    (hn : ∀ n, v ≠ .test n) : KeepsP FP R BP ResP (offer s t v) := by
+theorem keepsP_offer (s : PState) (h : SP FP R BP ResP s) (t : ArgType) (v : AVal) (hc : Offered TokP t v) :
+    KeepsP FP R BP ResP (offer s t v) := by
   unfold offer
   split
   · exact keepsP_ofCmdErr _ _
   · rename_i b s' pl hcc
-    exact curCheck_P C s h t v hc hn b s' pl hcc
+    exact curCheck_P C s h t v hc b s' pl hcc
 
 theorem keepsP_tryReassign (s : PState) (h : SP FP R BP ResP s) : KeepsP FP R BP ResP (tryReassign s) := by
   unfold tryReassign
@@ -272,22 +293,21 @@ theorem keepsP_thenCompl (r : FnResult) (h : KeepsP FP R BP ResP r) : KeepsP FP 
     exact keepsP_complThen C s' h false rew
   · exact h
 
-theorem keepsP_argThenCompl (s : PState) (h : SP FP R BP ResP s) (k : TokKind) (text : Bytes) :
-    KeepsP FP R BP ResP (argThenCompl s k text) := by
+theorem keepsP_argThenCompl (s : PState) (h : SP FP R BP ResP s) (tok : Tok) (htok : TokP tok) :
+    KeepsP FP R BP ResP (argThenCompl s tok.kind tok.text) := by
   unfold argThenCompl
   apply keepsP_thenCompl C
-  have hoff : ∀ t v, Consistent t v → (∀ n, v ≠ .test n) →
-      KeepsP FP R BP ResP (if (!Utf8.valid text) = true then FnResult.err PErr.decodeError false else offer s t v) := by
-    intro t v hc hn; split
+  have hoff : ∀ t v, Offered TokP t v →
+      KeepsP FP R BP ResP (if (!Utf8.valid tok.text) = true then FnResult.err PErr.decodeError false else offer s t v) := by
+    intro t v hc; split
     · trivial
-    · exact keepsP_offer C s h t v hc hn
-  have nt : ∀ (b : Bytes) (n : Node), AVal.str b ≠ .test n := by intro b n hh; cases hh
+    · exact keepsP_offer C s h t v hc
   unfold argumentFn
-  cases k with
-  | string => exact hoff _ _ (by simp [Consistent]) (nt _)
-  | multiline => exact hoff _ _ (by simp [Consistent]) (nt _)
-  | number => exact keepsP_offer C s h _ _ (by simp [Consistent]) (nt _)
-  | tag => exact keepsP_offer C s h _ _ (by simp [Consistent]) (nt _)
+  cases hk : tok.kind with
+  | string => exact hoff _ _ (Or.inl ⟨tok, htok, rfl, Or.inl ⟨Or.inl hk, rfl⟩⟩)
+  | multiline => exact hoff _ _ (Or.inl ⟨tok, htok, rfl, Or.inl ⟨Or.inr hk, rfl⟩⟩)
+  | number => exact keepsP_offer C s h _ _ (Or.inl ⟨tok, htok, rfl, Or.inr (Or.inl ⟨hk, rfl⟩)⟩)
+  | tag => exact keepsP_offer C s h _ _ (Or.inl ⟨tok, htok, rfl, Or.inr (Or.inr ⟨hk, rfl⟩)⟩)
   | left_bracket => exact h.fields rfl rfl
   | left_cbracket => exact keepsP_tryReassign C s h
   | comma => exact keepsP_tryReassign C s h
@@ -300,17 +320,18 @@ theorem keepsP_argThenCompl (s : PState) (h : SP FP R BP ResP s) (k : TokKind) (
   | bracket_comment => exact h
   | identifier => exact h
 
-theorem keepsP_pushTest (s : PState) (h : SP FP R BP ResP s) (text : Bytes) :
-    KeepsP FP R BP ResP (pushTest T s text) := by
+theorem keepsP_pushTest (s : PState) (h : SP FP R BP ResP s) (tok : Tok) (htok : TokP tok) (hk : tok.kind = .identifier) :
+    KeepsP FP R BP ResP (pushTest T s tok.text) := by
   unfold pushTest
   split
   · trivial
   · rename_i d hd
     have hdp : d ∈ T := Threading.getCommand_mem' T _ _ _ d hd
+    have hnamed : Named TokP T d := ⟨tok, htok, hk, getCommand_lookup T _ _ _ d hd⟩
     split
     · trivial
-    · rename_i hk
-      have hkind : d.kind = .test := by simpa using hk
+    · rename_i hk'
+      have hkind : d.kind = .test := by simpa using hk'
       split
       · exact keepsP_ofCmdErr _ _
       · rename_i s1 pl hcc
@@ -319,7 +340,7 @@ theorem keepsP_pushTest (s : PState) (h : SP FP R BP ResP s) (text : Bytes) :
         obtain ⟨f, rest, st', hst, hcna, rfl⟩ := curCheck_true s _ _ s1 pl hcc
         have hS := h.1
         rw [hst] at hS
-        obtain ⟨h1, h2, h3⟩ := C.pushTest d hdp f s.loaded st' pl hS.head hkind hcna
+        obtain ⟨h1, h2, h3⟩ := C.pushTest d hdp hnamed f s.loaded st' pl hS.head hkind hcna
         apply keepsP_complThen C
         have hw : (withTop s { f with st := st' }).stack = { f with st := st' } :: rest := by
           unfold withTop; rw [hst]
@@ -343,23 +364,24 @@ theorem keepsP_closeParen (s : PState) (h : SP FP R BP ResP s) : KeepsP FP R BP 
     · rename_i s2 h2
       exact up_P C s1 s2 (popBracket_P s s1 _ h h1) h2
 
-theorem keepsP_argumentsFn (s : PState) (h : SP FP R BP ResP s) (k : TokKind) (text : Bytes) :
-    KeepsP FP R BP ResP (argumentsFn T s k text) := by
+theorem keepsP_argumentsFn (s : PState) (h : SP FP R BP ResP s) (tok : Tok) (htok : TokP tok) :
+    KeepsP FP R BP ResP (argumentsFn T s tok.kind tok.text) := by
   unfold argumentsFn
   split
   · trivial
   · split
-    · exact keepsP_pushTest C s h text
+    · rename_i hk
+      exact keepsP_pushTest C s h tok htok hk
     · split
       · exact h.fields rfl rfl
-      · exact keepsP_argThenCompl C s h _ text
+      · exact keepsP_argThenCompl C s h tok htok
     · split
       · exact h.fields rfl rfl
-      · exact keepsP_argThenCompl C s h _ text
+      · exact keepsP_argThenCompl C s h tok htok
     · split
-      · exact keepsP_argThenCompl C s h _ text
+      · exact keepsP_argThenCompl C s h tok htok
       · exact keepsP_closeParen C s h
-    · exact keepsP_argThenCompl C s h _ text
+    · exact keepsP_argThenCompl C s h tok htok
 
 theorem keepsP_stringlistFn (s : PState) (h : SP FP R BP ResP s) (k : TokKind) (text : Bytes) :
     KeepsP FP R BP ResP (stringlistFn s k text) := by
@@ -373,26 +395,25 @@ theorem keepsP_stringlistFn (s : PState) (h : SP FP R BP ResP s) (k : TokKind) (
     · trivial
     · rename_i s1 h1
       have hp := popBracket_P s s1 _ h h1
-      have nt : ∀ (n : Node), AVal.strs s1.curlist ≠ .test n := by intro n hh; cases hh
       split
       · exact keepsP_ofCmdErr _ _
       · rename_i s2 pl hcc
-        exact curCheck_P C s1 hp .stringlist _ (by simp [Consistent]) nt _ _ _ hcc
+        exact curCheck_P C s1 hp .stringlist _ (Or.inr ⟨rfl, _, rfl⟩) _ _ _ hcc
       · rename_i s2 pl hcc
-        have h2 := curCheck_P C s1 hp .stringlist _ (by simp [Consistent]) nt _ _ _ hcc
+        have h2 := curCheck_P C s1 hp .stringlist _ (Or.inr ⟨rfl, _, rfl⟩) _ _ _ hcc
         exact keepsP_complThen C ⟨s2.result, s2.comments, s2.stack, .arguments, s2.curlist, s2.expected, s2.brackets, s2.loaded⟩
           (h2.fields rfl rfl) true false
   · exact h
 
-theorem keepsP_stateFn (s : PState) (h : SP FP R BP ResP s) (k : TokKind) (text : Bytes) :
-    KeepsP FP R BP ResP (stateFn T s k text) := by
+theorem keepsP_stateFn (s : PState) (h : SP FP R BP ResP s) (tok : Tok) (htok : TokP tok) :
+    KeepsP FP R BP ResP (stateFn T s tok.kind tok.text) := by
   unfold stateFn
   split
-  · exact keepsP_stringlistFn C s h k text
-  · exact keepsP_argumentsFn C s h k text
+  · exact keepsP_stringlistFn C s h tok.kind tok.text
+  · exact keepsP_argumentsFn C s h tok htok
 
-theorem keepsP_startCommand (s : PState) (h : SP FP R BP ResP s) (k : TokKind) (text : Bytes) :
-    KeepsP FP R BP ResP (startCommand T s k text) := by
+theorem keepsP_startCommand (s : PState) (h : SP FP R BP ResP s) (tok : Tok) (htok : TokP tok) :
+    KeepsP FP R BP ResP (startCommand T s tok.kind tok.text) := by
   unfold startCommand
   split
   · split
@@ -404,10 +425,13 @@ theorem keepsP_startCommand (s : PState) (h : SP FP R BP ResP s) (k : TokKind) (
         exact (up_P C s1 s2 (popBracket_P s s1 _ h h1) h2).fields rfl rfl
   · split
     · exact h
-    · split
+    · rename_i hident
+      have hk0 : tok.kind = .identifier := by simpa using hident
+      split
       · trivial
       · rename_i d hd
         have hdp : d ∈ T := Threading.getCommand_mem' T _ _ _ d hd
+        have hnamed : Named TokP T d := ⟨tok, htok, hk0, getCommand_lookup T _ _ _ d hd⟩
         split
         · trivial
         · rename_i hk
@@ -425,7 +449,7 @@ theorem keepsP_startCommand (s : PState) (h : SP FP R BP ResP s) (k : TokKind) (
               unfold prevName at hfo'
               rw [hnil] at hfo'
               simp only at hfo'
-              obtain ⟨h1, h2⟩ := C.pushTop d hdp _ ha.2 hkind hfo'
+              obtain ⟨h1, h2⟩ := C.pushTop d hdp hnamed _ ha.2 hkind hfo'
               exact ⟨⟨h1, h2⟩, ha.2⟩
             · rename_i f rest hcons
               split
@@ -437,7 +461,7 @@ theorem keepsP_startCommand (s : PState) (h : SP FP R BP ResP s) (k : TokKind) (
                 simp only at hfo'
                 have hS := ha.1
                 rw [hcons] at hS
-                obtain ⟨h1, h2⟩ := C.pushChild d hdp f hS.head hkind hac' hfo'
+                obtain ⟨h1, h2⟩ := C.pushChild d hdp hnamed f hS.head hkind hac' hfo'
                 refine ⟨?_, ha.2⟩
                 show StackP FP R BP ({ d := d, attach := .child } :: (announce s d).stack) (announce s d).result
                 rw [hcons]
@@ -473,19 +497,19 @@ theorem keepsP_closeCommand (s' : PState) (h : SP FP R BP ResP s') (k : TokKind)
                 exact up_P C { s2 with loaded := completeCb g s2.loaded } s4 (h2.fields rfl rfl) hup
     · exact h
 
-theorem keepsP_commandFn (s : PState) (h : SP FP R BP ResP s) (k : TokKind) (text : Bytes) :
-    KeepsP FP R BP ResP (commandFn T s k text) := by
+theorem keepsP_commandFn (s : PState) (h : SP FP R BP ResP s) (tok : Tok) (htok : TokP tok) :
+    KeepsP FP R BP ResP (commandFn T s tok.kind tok.text) := by
   unfold commandFn
   split
-  · exact keepsP_startCommand C s h k text
-  · have hg := keepsP_stateFn C s h k text
+  · exact keepsP_startCommand C s h tok htok
+  · have hg := keepsP_stateFn C s h tok htok
     split
     · rename_i s' rew heq
       rw [heq] at hg
-      exact keepsP_closeCommand C s' hg k rew
+      exact keepsP_closeCommand C s' hg tok.kind rew
     · exact hg
 
-theorem step_P (s : PState) (h : SP FP R BP ResP s) (tok : Tok) (s' : PState)
+theorem step_P (s : PState) (h : SP FP R BP ResP s) (tok : Tok) (htok : TokP tok) (s' : PState)
     (hs : step T s tok = .ok s' ∨ step T s tok = .rewind s') : SP FP R BP ResP s' := by
   unfold step at hs
   split at hs
@@ -504,7 +528,7 @@ theorem step_P (s : PState) (h : SP FP R BP ResP s) (tok : Tok) (s' : PState)
         · split at hadm
           · simp at hadm; subst hadm; exact h.fields rfl rfl
           · simp at hadm
-      have hg := keepsP_commandFn C s1 h1 tok.kind tok.text
+      have hg := keepsP_commandFn C s1 h1 tok htok
       unfold ofFn at hs
       split at hs
       · rename_i s2 heq; rw [heq] at hg; rcases hs with hs | hs <;> simp at hs; subst hs; exact hg
@@ -513,25 +537,25 @@ theorem step_P (s : PState) (h : SP FP R BP ResP s) (tok : Tok) (s' : PState)
       · rcases hs with hs | hs <;> simp at hs
       · rcases hs with hs | hs <;> simp at hs
 
-theorem deliver_P (s : PState) (h : SP FP R BP ResP s) (tok : Tok) (s' : PState)
+theorem deliver_P (s : PState) (h : SP FP R BP ResP s) (tok : Tok) (htok : TokP tok) (s' : PState)
     (hd : deliver T s tok = .ok s') : SP FP R BP ResP s' := by
   unfold deliver at hd
   cases hst : step T s tok with
-  | ok s1 => rw [hst] at hd; simp at hd; subst hd; exact step_P C s h tok s1 (Or.inl hst)
+  | ok s1 => rw [hst] at hd; simp at hd; subst hd; exact step_P C s h tok htok s1 (Or.inl hst)
   | reject e r => rw [hst] at hd; simp at hd
   | crash w => rw [hst] at hd; simp at hd
   | rewind s1 =>
     rw [hst] at hd
     simp only at hd
-    have h1 := step_P C s h tok s1 (Or.inr hst)
+    have h1 := step_P C s h tok htok s1 (Or.inr hst)
     cases hst2 : step T s1 tok with
-    | ok s2 => rw [hst2] at hd; simp at hd; subst hd; exact step_P C s1 h1 tok s2 (Or.inl hst2)
+    | ok s2 => rw [hst2] at hd; simp at hd; subst hd; exact step_P C s1 h1 tok htok s2 (Or.inl hst2)
     | reject e r => rw [hst2] at hd; simp at hd
     | crash w => rw [hst2] at hd; simp at hd
     | rewind s2 => rw [hst2] at hd; simp at hd
 
-theorem feed_P (toks : List Tok) (s : PState) (n : Nat) (h : SP FP R BP ResP s) (s' : PState) (m : Nat)
-    (hf : feed T toks s n = .done s' m) : SP FP R BP ResP s' := by
+theorem feed_P (toks : List Tok) (htoks : ∀ tok ∈ toks, TokP tok) (s : PState) (n : Nat) (h : SP FP R BP ResP s)
+    (s' : PState) (m : Nat) (hf : feed T toks s n = .done s' m) : SP FP R BP ResP s' := by
   induction toks generalizing s n with
   | nil => simp [feed] at hf; rw [← hf.1]; exact h
   | cons tok rest ih =>
@@ -540,10 +564,12 @@ theorem feed_P (toks : List Tok) (s : PState) (n : Nat) (h : SP FP R BP ResP s) 
     | error o => rw [hd] at hf; simp at hf
     | ok s1 =>
       rw [hd] at hf
-      exact ih s1 _ (deliver_P C s h tok s1 hd) hf
+      exact ih (fun t ht => htoks t (List.mem_cons_of_mem _ ht)) s1 _
+        (deliver_P C s h tok (htoks tok List.mem_cons_self) s1 hd) hf
 
 /-- the result list of an accepted parse is in `ResP` -/
 theorem accepted_result (text : Bytes) (prev : PState) (r : List Node)
+    (htoks : ∀ lr, Lex.lex text = some lr → ∀ tok ∈ lr.toks, TokP tok)
     (h : parse T text prev = .accept r) : ResP r := by
   unfold parse at h
   split at h
@@ -564,7 +590,7 @@ theorem accepted_result (text : Bytes) (prev : PState) (r : List Node)
           · simp at h
           · simp at h
             subst h
-            have hsp := feed_P C lr.toks {} 0 ⟨by simp [StackP], C.nil⟩ s' m hfeed
+            have hsp := feed_P C lr.toks (htoks lr hl) {} 0 ⟨by simp [StackP], C.nil⟩ s' m hfeed
             exact hsp.2
 
-end StackThread
+end TokThread
